@@ -55,6 +55,7 @@ class Ctx(object):
         self.solver_s = 0.0
         self._implied_stack = [{}]
         self._sqrts = []
+        self.poison = {}         # registered non-finite values (plain division by zero)
         self._fold = {}
         self._extra_depth = 0
 
